@@ -591,7 +591,9 @@ Definition ed s d k := {| e_src := s; e_dst := d; e_key := k; e_ref := 0; e_crit
 Definition ex_graph : graph :=
   {| g_nodes := [nd "a" JNull; nd "b" JNull; nd "c" JNull; nd "d" (JStr "*")];
      g_edges := [ed "a" "b" 0; ed "a" "c" 0; ed "b" "d" 0; ed "c" "d" 0] |}.
-Definition ex_c0 := init_cstate ex_spec ex_graph [("xs", JList [JInt 1; JInt 2])] [].
+Definition ex_c0 : cstate :=
+  {| c_spec := ex_spec; c_graph := ex_graph; c_inputs := [("xs", JList [JInt 1; JInt 2])]; c_parent := [];
+     c_init := false; c_ws := empty_ws; c_errors := []; c_log := []; c_output := None |}.
 Definition ex_ops : list api_op :=
   [OpSerialize; OpRequest S_RUNNING; OpGetNext; OpEvent "a" 0 (EvAction S_RUNNING JNull);
    OpEvent "a" 0 (EvAction S_SUCCEEDED (JStr "r")); OpGetNext;
